@@ -154,7 +154,35 @@ C04["rule"] += (" Second model: all 16305 reachable stores over 4 uids (TLC-enum
 
 
 # ----------------------------------------------------------------- C08
+# ids are opaque to the specification; a third of the cases run with ids that need escaping when printed
+_PSET_SPELL = {"a": 'a"q', "b": "b\\s", "c": "c\nl", "d": "d'\t"}
+
+
+def _rs_id(x):
+    return _PSET_SPELL.get(x, x)
+
+
+def _rs_state(s):
+    out = {}
+    for k in ("st", "tm"):
+        out[k] = {_rs_id(i): v for i, v in s[k].items()} if isinstance(s.get(k), dict) else s.get(k, {})
+    ln = s.get("ln")
+    out["ln"] = {_rs_id(i): dict(v, tid=_rs_id(v["tid"])) for i, v in ln.items()} if isinstance(ln, dict) else (ln or {})
+    return out
+
+
+def _rs_op(op):
+    name = op[0]
+    if name == "merge":
+        return [name, _rs_state(op[1])] + list(op[2:])
+    if name == "link":
+        return [name, _rs_id(op[1]), _rs_id(op[2])] + list(op[3:])
+    return [name, _rs_id(op[1])] + list(op[2:])
+
+
 def _pset_case(world, c, i):
+    if i % 3 == 1:
+        return dict(id=i, world=world, pre=_rs_state(c["pre"]), op=_rs_op(c["op"]))
     return dict(id=i, world=world, pre=c["pre"], op=c["op"])
 
 
@@ -222,6 +250,8 @@ def _pset_histories(fam, tier, wd, seed):
                 hist.append(["removeTemplate", t])
             else:
                 hist.append(["merge", _pset_random_state(rnd, pool + ["policy0"], world), rnd.random() < 0.6])
+        if i % 3 == 1:
+            hist = [_rs_op(op) for op in hist]
         cases.append(dict(id="h%d" % i, world=world, hist=hist))
     cpath = os.path.join(wd, "hist.cases.ndjson")
     tpath = os.path.join(wd, "hist.trace.ndjson")
